@@ -444,6 +444,27 @@ example : (runBatch (demo [.answer .pass false, .answer .pass false, .answer .pa
     (runBatch (demo [.answer .pass false, .answer .pass false, .answer .pass false] none .ok false)).sideband
       = [("a".toList, "bad header".toList), ("b".toList, "x: y".toList)] := by decide
 
+/-- hypotheses of `oversize_response_all_setup_errors` / `highbit_response_all_setup_errors`: a
+server that prints a UTF-8 byte-order mark and text on its stdout -/
+example : Delimited.Site.limit .server < Delimited.be32 [0xef, 0xbb, 0xbf, 0x4c] ∧ 128 ≤ (0xef : UInt8).toNat ∧
+    (runBatch (demo [.answer .pass false, .answer .pass true] none
+      (.stream [0xef, 0xbb, 0xbf, 0x4c, 0x69, 0x73] (some false)) false)).log = [(0, .setup), (1, .setup)] := by decide
+
+/-- hypotheses of `short_response_all_setup_errors`: two bytes; a prefix announcing 5 bytes followed by 2 -/
+example : ([0, 0] : List UInt8).length < 4 ∧ ([1, 2] : List UInt8).length < Delimited.be32 [0, 0, 0, 5] ∧
+    setupFault (demo [.answer .pass false] none (.stream [0, 0] (some false)) false) = true ∧
+    setupFault (demo [.answer .pass false] none (.stream [0, 0, 0, 5, 1, 2] (some false)) false) = true := by decide
+
+/-- a well-formed frame is decided by decoding (`stream_response_decided`, first alternative) -/
+example : respCert (.stream [0, 0, 0, 2, 9, 9, 7] (some true)) = some true := by decide
+
+/-- hypotheses of `client_stream_cases` / `client_garbage_setup_errors`: one answer, then a prefix
+with the top bit set: case 0 keeps its answer, cases 1 and 2 get "no result" -/
+example : Framing.Fits (Delimited.Site.limit .client) [[1, 2]] ∧ Delimited.Site.limit .client < 2147483648 ∧
+    casesOfClientStream 3 1 ([[1, 2]].flatMap Delimited.encode ++ (Delimited.putBe32 2147483648 ++ [7])) =
+      [.answer .pass true, .answer .noresult true, .answer .noresult true] :=
+  ⟨by intro m hm; simp at hm; subst hm; decide, by decide, by decide⟩
+
 example : ∀ nm ∈ ["a".toList, "b".toList, "c".toList], noSep nm = true := by decide
 
 end ConfModel.Props.C11
